@@ -19,7 +19,7 @@ func init() {
 		Explanation: "Decided: (R1) the supervising actor consults SupervisionStrategy.Supervise exactly once per failure, on its own strategy if set, else the system's; (R2) the one-for-one strategy returns the failing child, the one-for-all strategy the supervisor's children, and the supervision context's accessors return exactly those sets; " +
 			"(R3) every message told while supervising goes to a target, a chained context's target, or the supervisor's parent; (R4) restart / stop / resume / escalate bodies are entered under their own predicate, each does what the directive says, and every decision value enters one of them (unknown ⇒ escalate); " +
 			"(R5) a failure pauses the failing actor's mailbox before its parent is told, and the failure entry is reachable only from the recover block; (R6) no supervision for a failure while handling OnKill, nor OnKilled when the actor is not running or the notice names itself. " +
-			"(R7) the targets recorded in the supervision context (which later resume broadcasts walk) are exactly the strategy's targets that the supervisor paused; (R8) the restart marker, which the termination pipeline trusts to choose between clean-up and re-initialisation, is stored only under the success edge of CAS(state, running→killing): a Restart reaching an actor that is already stopping leaves no trace and cannot revive it; (R9 = C05.R4) the restart step installs the new instance before resetting the behaviour stack to its OnReceive. (R7, addition) apply-decision records the handed targets on every path and before any tell, broadcast, pause or escalation; (R10 = C01.R6) the suspension is effective: a paused mailbox hands no user message over. NOT decided: the run-time effect of each (decision × strategy × failure site) cell.",
+			"(R7) the targets recorded in the supervision context (which later resume broadcasts walk) are exactly the strategy's targets that the supervisor paused; (R8) the restart marker, which the termination pipeline trusts to choose between clean-up and re-initialisation, is stored only under the success edge of CAS(state, running→killing): a Restart reaching an actor that is already stopping leaves no trace and cannot revive it; (R9 = C05.R4) the restart step installs the new instance before resetting the behaviour stack to its OnReceive. (R7, addition) apply-decision records the handed targets on every path and before any tell, broadcast, pause or escalation; (R10 = C01.R6) the suspension is effective: a paused mailbox hands no user message over. (R11 = C01.R2) a decision sent to a suspended child is never stranded by the consumer's exit re-check; (R12 = C03.R2) a stopping actor runs no user message, so it cannot fail and be supervised again while it stops. NOT decided: the run-time effect of each (decision × strategy × failure site) cell.",
 		Rules: []Rule{
 			{ID: "C08.R1", Min: 2, Desc: "strategy consulted exactly once; own else system", Fn: c08Consult},
 			{ID: "C08.R2", Min: 4, Desc: "target selection of both strategies and the context accessors", Fn: c08Targets},
@@ -29,6 +29,8 @@ func init() {
 			{ID: "C08.R6", Min: 3, Desc: "no supervision while stopping", Fn: c08NotWhileStopping},
 			{ID: "C08.R7", Min: 2, Desc: "the recorded targets are exactly the targets that were paused", Fn: c08RecordedTargets},
 			{ID: "C08.R8", Min: 1, Desc: "a restart is accepted only by a running actor: the restart marker is stored under the won CAS", Fn: c08RestartAccepted},
+			{ID: "C08.R11", Min: 2, Desc: "a decision sent to a suspended child is never stranded: the consumer's exit re-check notices a pending system message whatever the pause flag says (C01.R2)", Fn: c01Release},
+			{ID: "C08.R12", Min: 12, Desc: "a stopping actor runs no user message, so it cannot fail again and be supervised while it stops (C03.R2 guard truth table)", Fn: c03Guard},
 			{ID: "C08.R10", Min: 3, Desc: "the suspension is effective: a paused mailbox hands no user message over (C01.R6 pause gate)", Fn: c01PauseGate},
 			{ID: "C08.R9", Min: 5, Desc: "restart re-initialisation: new instance, behaviour stack reset to it, hooks, OnLaunch (C05.R4)", Fn: c05Restart},
 		},
@@ -38,7 +40,7 @@ func init() {
 		Explanation: "Decided: (R1) every path of the restart step (success and failure) resumes the mailbox; (R2) the termination path resumes it; (R3) the resume decision and both graceful decisions broadcast the resume command to every target along the escalation chain, after the poison message; the broadcast visits every chained context and every target exactly once; " +
 			"(R4) every decision value takes a branch (shared with C08.R4); (R5) zombie: behaviour replaced by the empty one, the restart-failure path tells nobody, a zombie passes the kill CAS, the zombie release path runs the termination cleanup; (R6) a paused mailbox neither spins nor misses the resume: the consumer exits only with the system queue observed empty after the release, re-arms only for eligible work, and Resume wakes (C01.R2/R7/R8). " +
 			"(R10) the supervisor pauses its targets before it sends the directive; a target that ignores the directive (CAS running→killing lost) is not un-paused by the restart step or by its termination: a zombie resumes its own mailbox on the ignored-Restart path (F31, fixed); an actor that is already stopping neither forwards an ignored immediate Kill to its children nor resumes them on an ignored Restart, so a failed child whose failure was escalated by a stopping supervisor stays paused forever and Stop times out (F33, KNOWN FINDING, not repaired). " +
-			"(R8) truth table of the restart step over the results of its hooks: whenever an executed hook reported failure the step marks the actor a zombie and never returns it to running, whatever the other hooks report; (R9 = C01.R6) user messages are popped only under a fresh not-paused observation after every handler call, so mail queued behind a failing message stays queued for the restarted / resumed incarnation. (R7, addition) apply-decision records its targets on every path before acting (an escalated failure is resumed by the level above only through this record); (R11 = C06.R5) a child spawned while the actor is dying is killed at once, so a restart that waits for the child count to reach zero completes. NOT decided: delivery order of the surviving queue at run time, concurrent sibling failures.",
+			"(R8) truth table of the restart step over the results of its hooks: whenever an executed hook reported failure the step marks the actor a zombie and never returns it to running, whatever the other hooks report; (R9 = C01.R6) user messages are popped only under a fresh not-paused observation after every handler call, so mail queued behind a failing message stays queued for the restarted / resumed incarnation. (R7, addition) apply-decision records its targets on every path before acting (an escalated failure is resumed by the level above only through this record); (R11 = C06.R5) a child spawned while the actor is dying is killed at once, so a restart that waits for the child count to reach zero completes. (R12 = C05.R7) a restart hook that panics counts as failed; (R13) in the command handler the pause / resume case calls the mailbox operation on every path — the command is obeyed whatever the actor's state; (R14 = C08.R4) each directive does what it says and an escalation travels as a system message. NOT decided: delivery order of the surviving queue at run time, concurrent sibling failures.",
 		Rules: []Rule{
 			{ID: "C09.R1", Min: 1, Desc: "restart step resumes on every path", Fn: c09RestartResumes},
 			{ID: "C09.R2", Min: 2, Desc: "termination resumes; zombie resumes", Fn: c03Parked},
@@ -48,6 +50,9 @@ func init() {
 			{ID: "C09.R8", Min: 4, Desc: "a failed restart hook decides: zombie, whatever later hooks return", Fn: c09HookDecides},
 			{ID: "C09.R10", Min: 3, Desc: "a directive that its target ignores strands nobody in a paused mailbox", Fn: c09IgnoredDirectives},
 			{ID: "C09.R11", Min: 2, Desc: "a restart waits for every child: a child spawned while the actor is dying is killed at once (C06.R5)", Fn: c06SpawnWhileDying},
+			{ID: "C09.R14", Min: 5, Desc: "each directive does what it says; an escalation travels as a system message, so a supervisor that is itself stopping still receives it (C08.R4)", Fn: c08Dispatch},
+			{ID: "C09.R13", Min: 2, Desc: "a pause / resume command is obeyed unconditionally", Fn: c09CommandsObeyed},
+			{ID: "C09.R12", Min: 1, Desc: "a restart hook that panics counts as failed: a recovered panic is never turned into success (C05.R7)", Fn: recoveredPanicsAreFailures},
 			{ID: "C09.R9", Min: 3, Desc: "a paused mailbox hands no user message over (C01.R6 pause gate)", Fn: c01PauseGate},
 			{ID: "C09.R7", Min: 2, Desc: "everything that was paused is recorded as a target (so the resume broadcast reaches it)", Fn: c08RecordedTargets},
 			{ID: "C09.R6", Min: 7, Desc: "paused mailbox neither spins nor misses the resume (a pending system message — the resume command — always re-arms)", Fn: func(p *Program, r *Report) { c01Release(p, r); c01NoSpin(p, r); c01Resume(p, r) }},
@@ -1644,4 +1649,72 @@ func (p *Program) tellSitesG(g *IG) []tellSite {
 		out = append(out, p.tellSites(f)...)
 	}
 	return out
+}
+
+// c09CommandsObeyed: the supervisor's Pause and Resume commands are the only thing that suspends and releases the targets of a
+// decision (the resume broadcast at the end of a round reaches every target, zombies included). In the command handler, the
+// case of each command calls the mailbox operation on every path — a condition in front of it (restart in progress, state)
+// leaves a target paused that nobody will resume again.
+func c09CommandsObeyed(p *Program, r *Report) {
+	lc := lcOrFail(p, r)
+	if lc == nil {
+		return
+	}
+	var fn *ssa.Function
+	for _, f := range p.methodsOf(lc.Ctx) {
+		if f.Parent() != nil {
+			continue
+		}
+		for _, prm := range f.Params {
+			if strings.HasSuffix(typeName(prm.Type()), "NoneArgsCommandMessage") {
+				fn = f
+			}
+		}
+	}
+	if fn == nil {
+		r.Unresolved("command handler (context method taking the command message)")
+		return
+	}
+	g := p.igx(fn)
+	n := 0
+	for _, opName := range []string{"Pause", "Resume"} {
+		ops := nodesWhere(g, func(in ssa.Instruction) bool {
+			c := callOf(in)
+			if c == nil || !c.IsInvoke() || c.Method.Name() != opName {
+				return false
+			}
+			f, _ := fieldLoad(strip(c.Value))
+			return f == lc.MailboxF
+		})
+		if len(ops) == 0 {
+			continue
+		}
+		// the case edges: comparisons of the message's command with a constant that dominate the operation
+		var cases []edge
+		for _, ef := range p.edgeFacts(g) {
+			if ef.Fact.Op != token.EQL || ef.Fact.IsNil || ef.Fact.Bool || ef.Fact.Y != nil || ef.Field == nil || ef.Field.Name() != "Command" {
+				continue
+			}
+			for o := range ops {
+				if g.DominatedByEdges(o, map[edge]bool{ef.E: true}) {
+					cases = append(cases, ef.E)
+				}
+			}
+		}
+		if len(cases) == 0 {
+			r.Undecided("command case of "+opName, fn.Pos(), "the mailbox operation is not under a case edge comparing the message's command with a constant")
+			continue
+		}
+		n++
+		ok := true
+		for _, e := range cases {
+			if !ops[e.to] && anyIn(g.Reach([]int{e.to}, ops, nil), g.Exits) {
+				ok = false
+			}
+		}
+		r.Check(ok, "command case calls Mailbox."+opName+"() on every path", firstPos(g, ops), "from the case edge of the command every path to the exit passes the mailbox operation: the command is obeyed whatever the actor's state")
+	}
+	if n == 0 {
+		r.Unresolved("no pause / resume case in the command handler")
+	}
 }
